@@ -1,6 +1,7 @@
 import Lean.Data.Json
 import GBS.Model.Gen
 import GBS.Extracted.Choose
+import GBS.Extracted.Mixture
 import GBS.Model.Mixture
 import GBS.Model.SysGen
 import GBS.Model.FF
